@@ -66,7 +66,8 @@ def stack_vs_peer(rng):
     """the real stack as originator against the reference responder (windows, holds) and as responder against the
     reference originator (RTS limits)"""
     own_max = rng.choice([1, 2, 3, 8, 255, rng.randrange(1, 256)])
-    sc = net21.Scenario(C.REPO, rng.getrandbits(32), 1, maxcmdt=[own_max], addrs=[0x21])
+    cm_iv = rng.choice([None, None, None, 1000, 20000])        # the stack's optional minimum interval between connection-mode packets
+    sc = net21.Scenario(C.REPO, rng.getrandbits(32), 1, maxcmdt=[own_max], cmdt=[cm_iv], addrs=[0x21])
     bad = []
     if rng.random() < 0.5:
         wmode = rng.choice(['max', 'one', 'rand'])
@@ -91,13 +92,13 @@ def stack_vs_peer(rng):
             if sc.net.errors:
                 bad.append(f"exception {sc.net.errors[0]}")
             return bad, dict(role='originator', own_max=own_max, holds=peer.holds, hold_gap=peer.hold_gap, lat=peer.lat, size=len(data), silent=True)
-        net21.run_with_peer(sc, peer, 5_000_000 + ((len(data) + 6) // 7) * (peer.lat + 2000) * 2 + peer.holds * peer.hold_gap)
+        net21.run_with_peer(sc, peer, 5_000_000 + ((len(data) + 6) // 7) * (peer.lat + 2000 + (cm_iv or 0)) * 2 + peer.holds * peer.hold_gap)
         bad += peer.log
         if peer.aborted:
             bad.append(f"stack aborted the transfer (reason {peer.aborted[0][2]}) although the responder was conforming")
         elif peer.done != [(0x21, 0xD000, data)]:
             bad.append(f"reference responder reassembled {str(peer.done)[:100]} instead of the {len(data)}-byte message")
-        desc = dict(role='originator', own_max=own_max, window=wmode, holds=peer.holds, hold_gap=peer.hold_gap, lat=peer.lat, size=len(data))
+        desc = dict(role='originator', own_max=own_max, window=wmode, holds=peer.holds, hold_gap=peer.hold_gap, lat=peer.lat, size=len(data), cm_iv=cm_iv)
     else:
         limit = rng.choice([1, 2, 3, 5, 16, 254, 255, rng.randrange(1, 256)])
         peer = net21.RefPeer21(sc, 0x55, rng, reply_latency=rng.choice([0, 1000, 20000]))
